@@ -512,6 +512,7 @@ func C02(r *core.Run) {
 		defer close(slowDone)
 		c02SlowBodies(r, addr, rec)
 	}()
+	c02ExpectContinue(r, addr, rec)
 
 	total := r.Pick(800, 24000)
 	nbig := r.Pick(6, 160)
@@ -922,4 +923,70 @@ func c02SlowBodies(r *core.Run, addr string, rec *recorder) {
 	}
 	wg.Wait()
 	r.Add("slow_body_requests", len(pauses)*2)
+}
+
+// c02ExpectContinue: clients that announce their body with "Expect: 100-continue"
+// (curl does for bodies over 1 KiB) and send it once the proxy says 100 Continue,
+// or after waiting in vain.  The backend must receive the request and body unchanged.
+func c02ExpectContinue(r *core.Run, addr string, rec *recorder) {
+	rng := r.Rand("c02-expect")
+	n := r.Pick(6, 40)
+	var wg sync.WaitGroup
+	var got100 int64
+	for k := 0; k < n; k++ {
+		g := &genReq{Tok: fmt.Sprintf("s%dexp%d", r.Seed, k), Method: []string{"POST", "PUT", "PATCH"}[k%3], Host: "expect.example", Chunked: k%2 == 1}
+		g.Target = "/expect/" + g.Tok + "?k=" + fmt.Sprint(k)
+		g.BodyLen = []int{1, 1025, 4096, 70000, 1 << 20}[rng.Intn(5)]
+		g.body = make([]byte, g.BodyLen)
+		rng.Read(g.body)
+		g.Chunks = []int{g.BodyLen}
+		g.Fields = []rawhttp.Field{{Name: []string{"Expect", "expect"}[k%2], Value: []string{"100-continue", "100-Continue"}[(k/2)%2]}, {Name: "Content-Type", Value: "application/x-verif"}}
+		g.Class = fmt.Sprintf("%s|expect-100-continue|body:%s|chunked=%v", g.Method, sizeClass(g.BodyLen), g.Chunked)
+		wire := g.wire()
+		var headLen int
+		if i := strings.Index(string(wire), "\r\n\r\n"); i >= 0 {
+			headLen = i + 4
+		}
+		wg.Add(1)
+		go func(g *genReq, wire []byte, headLen int) {
+			defer wg.Done()
+			r.Case(g.Class)
+			conn, err := net.DialTimeout("tcp", addr, 5*time.Second)
+			if err != nil {
+				r.Inconclusive("expect lane: dial: " + err.Error())
+				return
+			}
+			defer conn.Close()
+			br := bufio.NewReader(conn)
+			conn.Write(wire[:headLen])
+			// wait for the interim response (a client may also send the body after waiting in vain)
+			conn.SetReadDeadline(time.Now().Add(3 * time.Second))
+			if line, err := br.Peek(12); err == nil && strings.HasPrefix(string(line), "HTTP/1.1 100") {
+				atomic.AddInt64(&got100, 1)
+			}
+			conn.Write(wire[headLen:])
+			conn.SetReadDeadline(time.Now().Add(30 * time.Second))
+			m, err := rawhttp.ReadResponse(br, g.Method)
+			got, perr := rec.get(g.Tok)
+			switch {
+			case len(got) == 0:
+				st := 0
+				if m != nil {
+					st = m.Status
+				}
+				r.Violate("C02:request-not-delivered:expect-continue", fmt.Sprintf("%s with Expect: 100-continue and a %d-byte body was not delivered to the backend (client saw status %d, err %v)", g.Method, g.BodyLen, st, err), g, nil)
+			case len(got) > 1:
+				r.Violate("C02:delivery-count:expect-continue", fmt.Sprintf("backend saw request %s %d times", g.Tok, len(got)), g, nil)
+			case perr != "":
+				r.Violate("C02:backend-parse-error:expect-continue", fmt.Sprintf("backend could not parse forwarded request %s: %s (body got %d of %d bytes)", g.Tok, perr, len(got[0].Body), g.BodyLen), g, nil)
+			default:
+				if bad := compareRequest(g, got[0]); len(bad) > 0 {
+					r.Violate("C02:"+diffKind(bad[0])+":expect-continue", fmt.Sprintf("%s %s: %s", g.Method, g.Target, strings.Join(bad, "; ")), g, nil)
+				}
+			}
+		}(g, wire, headLen)
+	}
+	wg.Wait()
+	r.Add("expect_continue_requests", n)
+	r.Add("expect_continue_interim_100_seen_by_client", int(atomic.LoadInt64(&got100)))
 }
